@@ -47,6 +47,22 @@ PROPS = {
         trusted_base=[GO_LIBS, "sync.Mutex / Go memory model"],
         assumptions=["distinct associations draw independent SEIDs (uniqueness is per association, as the property states)"],
     ),
+    "C08": dict(
+        lean=["Upf.Props.C08"],
+        claim="Theorems over ALL token lists, UE address strings and lexers: rendered grammar rules parse to exactly what was written (roundtrip); "
+              "fewer than 3 tokens / unknown action / unknown direction / a keyword without address are refused in every context; an accepted "
+              "description has both clauses; a malformed description leaves exactly the UE-address pre-fill; SDF orientation by direction, "
+              "protocol exactness, PFD descriptions taken verbatim from the first matching direction, unknown application refused. "
+              "PFD Management replace/rollback is checked by the system-level harness (C01/C02 family).",
+        note="Trusted: Lean kernel + standard axioms; hand models of strings.Fields, strconv.ParseUint and net.ParseCIDR (IPv4) validated by the "
+             "correspondence run; IPv6 tokens are outside the model (crash-freedom only); go-pfcp's IE codecs.",
+        rule="grammar strings (10 protocol forms x 18 address forms x 11 port forms, covering sample in quick / product in thorough, both clause orders) "
+             "x UE strings; every single-token corruption (truncate/drop/duplicate/swap/replace) of a spread of them; token soup with odd white space; "
+             "edge strings; PDR-level SDF on uplink and downlink PDRs; random PFD tables with 1-3 applications, 0-3 descriptions each, malformed entries "
+             "and unknown IDs; every case here reaches a distinct parse outcome, so distinct cases count as non-trivial",
+        trusted_base=[GO_LIBS, "go-pfcp IE constructors/accessors", "net.ParseCIDR, strconv.ParseUint, strings.Fields (hand models)"],
+        assumptions=["IPv4 only", "PFD Management message handling is exercised at system level, not here"],
+    ),
 }
 
 NOT_APPLICABLE = {}
